@@ -546,3 +546,781 @@ Section Koenig.
     - left. apply filter_In. split; [apply in_seq; lia|]. now rewrite Ez.
   Qed.
 End Koenig.
+
+(* ================================================================================== *)
+(* 4. Hopcroft-Karp: state invariants, DFS augmentation                                *)
+(* ================================================================================== *)
+Lemma didx_inj : forall x y, didx x = didx y -> x = y.
+Proof. intros [x|] [y|] H; simpl in H; congruence. Qed.
+
+Lemma dset_length : forall d x k, length (dset d x k) = length d.
+Proof. intros. unfold dset. apply upd_length. Qed.
+
+Lemma dget_dset_same : forall d x k, didx x < length d -> dget (dset d x k) x = k.
+Proof. intros. unfold dget, dset. now apply nth_upd_same. Qed.
+
+Lemma dget_dset_other : forall d x y k, x <> y -> dget (dset d x k) y = dget d y.
+Proof.
+  intros. unfold dget, dset. apply nth_upd_other. intro E. apply H. symmetry. now apply didx_inj.
+Qed.
+
+Lemma dget_dset_cases : forall d x y k,
+  (x = y /\ dget (dset d x k) y = k) \/ dget (dset d x k) y = dget d y.
+Proof.
+  intros d x y k. destruct (Nat.eq_dec (didx x) (didx y)) as [E|E].
+  - apply didx_inj in E. subst. destruct (Nat.lt_ge_cases (didx y) (length d)).
+    + left. split; auto. now apply dget_dset_same.
+    + right. unfold dset. now rewrite nth_upd_oob.
+  - right. apply dget_dset_other. congruence.
+Qed.
+
+Lemma mget_upd_same : forall m i x, i < length m -> mget (upd i x m) i = x.
+Proof. intros. unfold mget. now apply nth_upd_same. Qed.
+
+Lemma mget_upd_other : forall m i j x, j <> i -> mget (upd i x m) j = mget m j.
+Proof. intros. unfold mget. now apply nth_upd_other. Qed.
+
+Lemma mget_Some_lt : forall m i x, mget m i = Some x -> i < length m.
+Proof.
+  intros m i x H. destruct (Nat.lt_ge_cases i (length m)); auto.
+  unfold mget in H. rewrite nth_overflow in H; [discriminate|lia].
+Qed.
+
+Section HK.
+  Variable g : graph.
+  Hypothesis W : wf g.
+
+  Definition SW (st : hk) : Prop :=
+    length (mu st) = num_u g /\ length (mv st) = num_v g /\ length (dist st) = num_u g + 1.
+  (* matched_pairs_u determines the matching; matched_pairs_v mirrors it *)
+  Definition invA (st : hk) : Prop :=
+    forall u v, mget (mu st) u = Some v -> mget (mv st) v = Some u /\ In v (adjU g u).
+  Definition invB (st : hk) : Prop :=
+    forall u v, mget (mv st) v = Some u -> mget (mu st) u = Some v.
+  Definition DB (st : hk) : Prop := forall x, dget (dist st) x <= num_u g + 1.
+  (* vertices of distance below d are not touched *)
+  Definition FR (d : nat) (st st' : hk) : Prop :=
+    (forall y, dget (dist st) (Some y) < d ->
+       mget (mu st') y = mget (mu st) y /\ dget (dist st') (Some y) = dget (dist st) (Some y)) /\
+    dget (dist st') None = dget (dist st) None.
+  (* consistent except that V vertex h (the old partner of the vertex being re-matched) is dangling *)
+  Definition K (st : hk) (h : option nat) : Prop :=
+    invA st /\
+    (forall u v, mget (mv st) v = Some u -> Some v <> h -> mget (mu st) u = Some v) /\
+    (forall y v, h = Some v -> mget (mu st) y <> Some v).
+
+  Definition dpost (x : option nat) (st : hk) (r : bool) (st' : hk) : Prop :=
+    SW st' /\ DB st' /\ FR (dget (dist st) x) st st' /\
+    (forall y, mget (mu st) y <> None -> mget (mu st') y <> None) /\
+    (r = false -> mu st' = mu st /\ mv st' = mv st) /\
+    (r = true -> match x with
+                 | None => st' = st
+                 | Some u => K st' (mget (mu st) u) /\ mget (mu st') u <> None
+                 end).
+
+  Definition dpre (x : option nat) (st : hk) (f : nat) : Prop :=
+    SW st /\ invA st /\ invB st /\ DB st /\
+    match x with
+    | None => 1 <= f
+    | Some u => u < num_u g /\ num_u g + 3 <= f + dget (dist st) (Some u)
+    end.
+
+  Lemma FR_refl : forall d st, FR d st st.
+  Proof. intros d st. split; auto. Qed.
+
+  Lemma FR_weaken : forall d d' st st', d' <= d -> FR d st st' -> FR d' st st'.
+  Proof. intros d d' st st' Hle [H1 H2]. split; auto. intros y Hy. apply H1. lia. Qed.
+
+  Lemma FR_trans : forall d st1 st2 st3, FR d st1 st2 -> FR d st2 st3 -> FR d st1 st3.
+  Proof.
+    intros d st1 st2 st3 [A1 A2] [B1 B2]. split; [|congruence].
+    intros y Hy. destruct (A1 y Hy) as [E1 E2]. rewrite <- E2 in Hy. destruct (B1 y Hy) as [E3 E4].
+    split; congruence.
+  Qed.
+
+  Lemma K_None : forall st, invA st -> invB st -> K st None.
+  Proof. intros st HA HB. split; [exact HA|]. split; [|discriminate]. intros u v H _. now apply HB. Qed.
+
+  Lemma K_None_inv : forall st, K st None -> invA st /\ invB st.
+  Proof. intros st (HA & HB & _). split; auto. intros u v H. apply HB; auto. discriminate. Qed.
+
+  (* `matched_pairs_v[v] = u; matched_pairs_u[u] = v` after the recursive call succeeded *)
+  Lemma K_assign : forall st u v, SW st -> K st (Some v) -> In v (adjU g u) ->
+    K {| mu := upd u (Some v) (mu st); mv := upd v (Some u) (mv st); dist := dist st |} (mget (mu st) u).
+  Proof.
+    intros st u v (L1 & L2 & L3) (HA & HB & HC) He.
+    destruct (adjU_range g u v W He) as [Hu Hv].
+    assert (Hu' : u < length (mu st)) by lia. assert (Hv' : v < length (mv st)) by lia.
+    unfold K, invA. cbn [mu mv dist]. split; [|split].
+    - intros y v' H. destruct (Nat.eq_dec y u) as [->|Hne].
+      + rewrite mget_upd_same in H by assumption. inversion H; subst. split; [|assumption].
+        now apply mget_upd_same.
+      + rewrite mget_upd_other in H by assumption. destruct (HA y v' H) as [H1 H2]. split; [|assumption].
+        rewrite mget_upd_other; auto. intros ->. exact (HC y v eq_refl H).
+    - intros y v' H Hh. destruct (Nat.eq_dec v' v) as [->|Hne].
+      + rewrite mget_upd_same in H by assumption. inversion H; subst. now apply mget_upd_same.
+      + rewrite mget_upd_other in H by assumption.
+        assert (H1 : mget (mu st) y = Some v') by (apply HB; auto; congruence).
+        destruct (Nat.eq_dec y u) as [->|Hne'].
+        * congruence.
+        * now rewrite mget_upd_other.
+    - intros y v0 Hh. destruct (Nat.eq_dec y u) as [->|Hne].
+      + rewrite mget_upd_same by assumption. intros E. inversion E; subst.
+        eapply (HC u); [reflexivity|]. congruence.
+      + rewrite mget_upd_other by assumption. intros E.
+        assert (Hh' : mget (mu st) u = Some v0) by congruence.
+        destruct (HA _ _ E) as [E1 _]. destruct (HA _ _ Hh') as [E2 _]. congruence.
+  Qed.
+
+  Lemma dpost_compose : forall u w st st1 r st',
+    dget (dist st) w = dget (dist st) (Some u) + 1 ->
+    dpost w st false st1 -> dpost (Some u) st1 r st' -> dpost (Some u) st r st'.
+  Proof.
+    intros u w st st1 r st' Hd (S1 & D1 & F1 & M1 & E1 & _) (S2 & D2 & F2 & M2 & E2 & T2).
+    destruct (E1 eq_refl) as [Emu Emv]. rewrite Hd in F1.
+    assert (Hdu : dget (dist st1) (Some u) = dget (dist st) (Some u)).
+    { destruct F1 as [F1 _]. apply F1. lia. }
+    rewrite Hdu in F2.
+    split; [exact S2|]. split; [exact D2|]. split.
+    { eapply FR_trans; [|exact F2]. eapply FR_weaken; [|exact F1]. lia. }
+    split; [auto|]. split.
+    - intros Hr. destruct (E2 Hr). split; congruence.
+    - intros Hr. specialize (T2 Hr). now rewrite Emu in T2.
+  Qed.
+
+  Lemma dfs_loop_main : forall f,
+    (forall x st, dpre x st f -> exists r st', dfs f g x st = Some (r, st') /\ dpost x st r st') ->
+    forall u vs st, incl vs (adjU g u) -> dpre (Some u) st (S f) ->
+      exists r st', dfs_loop (dfs f g) (num_u g + 1) u vs st = Some (r, st') /\ dpost (Some u) st r st'.
+  Proof.
+    intros f IHf u vs. induction vs as [|v vs IH]; intros st Hin (HS & HA & HB & HD & Hu & Hf); simpl.
+    - eexists. eexists. split; [reflexivity|].
+      destruct HS as (L1 & L2 & L3).
+      split; [unfold SW; cbn [mu mv dist]; rewrite ?upd_length, ?dset_length; auto|]. split.
+      { intros x. simpl. destruct (dget_dset_cases (dist st) (Some u) x (num_u g + 1)) as [[_ ->]| ->]; auto. }
+      split.
+      { split; simpl.
+        - intros y Hy. split; auto. apply dget_dset_other. intros E. inversion E; subst. lia.
+        - apply dget_dset_other. discriminate. }
+      split; [auto|]. split; [auto|discriminate].
+    - assert (Hin' : incl vs (adjU g u)) by (intros x Hx; apply Hin; now right).
+      assert (Hev : In v (adjU g u)) by (apply Hin; now left).
+      destruct (Nat.eqb_spec (dget (dist st) (mget (mv st) v)) (dget (dist st) (Some u) + 1)) as [Hd|Hd].
+      + destruct (IHf (mget (mv st) v) st) as (r1 & st1 & E1 & P1).
+        { split; [exact HS|]. split; [exact HA|]. split; [exact HB|]. split; [exact HD|].
+          destruct (mget (mv st) v) as [x|] eqn:Ew.
+          - split; [|lia]. apply HB in Ew. apply mget_Some_lt in Ew. destruct HS as (L1 & _). lia.
+          - specialize (HD (Some u)). lia. }
+        rewrite E1. destruct r1.
+        * (* the recursive call found an augmenting path *)
+          eexists. eexists. split; [reflexivity|].
+          destruct P1 as (S1 & D1 & F1 & M1 & _ & T1). specialize (T1 eq_refl). rewrite Hd in F1.
+          assert (Hk : K st1 (Some v) /\ SW st1).
+          { destruct (mget (mv st) v) as [x|] eqn:Ew.
+            - destruct T1 as [T1 _]. apply HB in Ew. rewrite Ew in T1. auto.
+            - subst st1. split; [|exact HS]. split; [exact HA|]. split.
+              + intros y v' H _. now apply HB.
+              + intros y v' E H. inversion E; subst. apply HA in H. destruct H as [H _]. congruence. }
+          destruct Hk as [Hk _].
+          assert (Emu : mget (mu st1) u = mget (mu st) u) by (apply F1; lia).
+          pose proof (K_assign st1 u v S1 Hk Hev) as Hk'. rewrite Emu in Hk'.
+          destruct S1 as (L1 & L2 & L3).
+          split; [unfold SW; cbn [mu mv dist]; rewrite ?upd_length, ?dset_length; auto|]. split; [exact D1|]. split.
+          { destruct F1 as [F1 F1']. split; simpl; [|exact F1'].
+            intros y Hy. destruct (F1 y) as [G1 G2]; [lia|]. split; [|exact G2].
+            rewrite mget_upd_other; auto. intros ->. lia. }
+          split.
+          { intros y Hy. simpl. destruct (Nat.eq_dec y u) as [->|Hne].
+            - rewrite mget_upd_same by lia. discriminate.
+            - rewrite mget_upd_other by assumption. auto. }
+          split; [discriminate|]. intros _. split; [exact Hk'|]. simpl.
+          rewrite mget_upd_same by lia. discriminate.
+        * (* the recursive call failed: next neighbour *)
+          pose proof P1 as (S1 & D1 & F1 & M1 & E1' & _). destruct (E1' eq_refl) as [Emu Emv].
+          rewrite Hd in F1.
+          assert (Hdu : dget (dist st1) (Some u) = dget (dist st) (Some u)) by (apply F1; lia).
+          destruct (IH st1 Hin') as (r & st' & E' & P').
+          { split; [exact S1|]. split; [unfold invA; rewrite Emu, Emv; exact HA|].
+            split; [unfold invB; rewrite Emu, Emv; exact HB|]. split; [exact D1|]. split; [exact Hu|]. lia. }
+          exists r, st'. split; [exact E'|]. eapply dpost_compose; eauto.
+      + apply IH; auto. split; [exact HS|]. split; [exact HA|]. split; [exact HB|]. split; [exact HD|]. split; assumption.
+  Qed.
+
+  Theorem dfs_main : forall f x st, dpre x st f ->
+    exists r st', dfs f g x st = Some (r, st') /\ dpost x st r st'.
+  Proof.
+    induction f as [|f IH]; intros x st Hp.
+    - exfalso. destruct Hp as (_ & _ & _ & HD & Hx). destruct x as [u|]; [|lia].
+      specialize (HD (Some u)). lia.
+    - destruct x as [u|]; simpl.
+      + apply dfs_loop_main; auto. apply incl_refl.
+      + destruct Hp as (HS & HA & HB & HD & _). exists true, st. split; [reflexivity|].
+        split; [exact HS|]. split; [exact HD|]. split; [apply FR_refl|]. split; [auto|].
+        split; [discriminate|reflexivity].
+  Qed.
+End HK.
+
+(* ================================================================================== *)
+(* 5. BFS layering                                                                     *)
+(* ================================================================================== *)
+(* layered path x -> y: every step u -v- matched_pairs_v[v] raises dist by exactly one *)
+Inductive lpath (g : graph) (mvl : list (option nat)) (d : list nat) : option nat -> option nat -> Prop :=
+| lpath_refl : forall x, lpath g mvl d x x
+| lpath_step : forall u v y, In v (adjU g u) -> dget d (mget mvl v) = dget d (Some u) + 1 ->
+    lpath g mvl d (mget mvl v) y -> lpath g mvl d (Some u) y.
+
+Lemma lpath_le : forall g mvl d x y, lpath g mvl d x y -> dget d x <= dget d y.
+Proof. intros g mvl d x y H. induction H; lia. Qed.
+
+Lemma lpath_snoc : forall g mvl d x u v, lpath g mvl d x (Some u) -> In v (adjU g u) ->
+  dget d (mget mvl v) = dget d (Some u) + 1 -> lpath g mvl d x (mget mvl v).
+Proof.
+  intros g mvl d x u v H. remember (Some u) as y eqn:E. revert u E.
+  induction H; intros u0 E Hv Hd; subst.
+  - eapply lpath_step; eauto. apply lpath_refl.
+  - eapply lpath_step; eauto.
+Qed.
+
+Lemma lpath_ext : forall g mvl d d' x y,
+  (forall z, dget d z <= dget d y -> dget d' z = dget d z) -> lpath g mvl d x y -> lpath g mvl d' x y.
+Proof.
+  intros g mvl d d' x y He H. induction H.
+  - apply lpath_refl.
+  - pose proof (lpath_le _ _ _ _ _ H1) as Hle.
+    eapply lpath_step; eauto. rewrite !He; auto; lia.
+Qed.
+
+Lemma count_occ_upd_dec : forall (d : list nat) i k a, i < length d -> nth i d 0 = a -> k <> a ->
+  S (count_occ Nat.eq_dec (upd i k d) a) = count_occ Nat.eq_dec d a.
+Proof.
+  induction d as [|h t IH]; intros [|i] k a Hi Hn Hk; simpl in *; try lia.
+  - subst. destruct (Nat.eq_dec k a); [contradiction|]. destruct (Nat.eq_dec a a); [reflexivity|contradiction].
+  - destruct (Nat.eq_dec h a); rewrite <- (IH i k a); auto; lia.
+Qed.
+
+Section BFS.
+  Variable g : graph.
+  Hypothesis W : wf g.
+  Variables mul mvl : list (option nat).
+  Hypothesis Lmu : length mul = num_u g.
+  Hypothesis MVR : forall v x, mget mvl v = Some x -> x < num_u g.
+
+  Definition valid (x : option nat) : Prop := match x with None => True | Some u => u < num_u g end.
+  Definition fin (d : list nat) (x : option nat) : Prop := dget d x < num_u g + 1.
+  Definition ext (d d' : list nat) : Prop := forall y, fin d y -> dget d' y = dget d y.
+  Definition bmeasure (d : list nat) (q : list (option nat)) : nat :=
+    length q + count_occ Nat.eq_dec d (num_u g + 1).
+
+  Record Jw (d : list nat) (q : list (option nat)) : Prop := {
+    j_len : length d = num_u g + 1;
+    j_db : forall x, dget d x <= num_u g + 1;
+    j_q : forall x, In x q -> valid x /\ fin d x;
+    j_chain : forall x, valid x -> fin d x ->
+       exists l, NoDup l /\ length l = dget d x /\ forall y, In y l -> y < num_u g /\ dget d (Some y) < dget d x;
+    j_back : forall x, valid x -> fin d x ->
+       exists u0, u0 < num_u g /\ is_free mul u0 = true /\ dget d (Some u0) = 0 /\ lpath g mvl d (Some u0) x;
+    j_free : forall u, u < num_u g -> is_free mul u = true -> dget d (Some u) = 0
+  }.
+
+  Lemma chain_bound : forall d q u, Jw d q -> u < num_u g -> fin d (Some u) -> dget d (Some u) + 1 <= num_u g.
+  Proof.
+    intros d q u HJ Hu Hf. destruct (j_chain d q HJ (Some u) Hu Hf) as (l & Hn & Hl & Hy).
+    rewrite <- Hl. replace (length l + 1) with (length (l ++ [u])) by (rewrite app_length; simpl; lia).
+    apply NoDup_range_length.
+    - apply NoDup_snoc; auto. intros Hin. apply Hy in Hin. lia.
+    - intros y Hin. apply in_app_or in Hin. destruct Hin as [Hin|[<-|[]]]; auto. now apply Hy.
+  Qed.
+
+  Lemma valid_mvl : forall v, valid (mget mvl v).
+  Proof. intros v. destruct (mget mvl v) eqn:E; simpl; auto. eapply MVR; eauto. Qed.
+
+  Lemma valid_idx : forall (d : list nat) x, length d = num_u g + 1 -> valid x -> didx x < length d.
+  Proof. intros d [u|] Hl Hv; simpl in *; lia. Qed.
+
+  Lemma relax_step : forall u d q v, Jw d q -> u < num_u g -> fin d (Some u) -> In v (adjU g u) ->
+    let dq' := bfs_relax (num_u g + 1) mvl (Some u) (d, q) v in
+    Jw (fst dq') (snd dq') /\ ext d (fst dq') /\ incl q (snd dq') /\ fin (fst dq') (mget mvl v) /\
+    (forall y, fin (fst dq') y -> fin d y \/ In y (snd dq')) /\
+    bmeasure (fst dq') (snd dq') = bmeasure d q.
+  Proof.
+    intros u d q v HJ Hu Hfu Hv. unfold bfs_relax. cbn [fst snd].
+    set (w := mget mvl v). destruct (Nat.eqb_spec (dget d w) (num_u g + 1)) as [Hinf|Hfin]; cbn [fst snd].
+    2:{ split; [exact HJ|]. split; [intros y Hy; reflexivity|]. split; [apply incl_refl|].
+        split; [pose proof (j_db d q HJ w); unfold fin; lia|]. split; [auto|reflexivity]. }
+    pose proof (chain_bound d q u HJ Hu Hfu) as Hcb.
+    pose proof (valid_mvl v) as Hvw. fold w in Hvw.
+    pose proof (valid_idx d w (j_len d q HJ) Hvw) as Hiw.
+    set (k := dget d (Some u) + 1). set (d' := dset d w k).
+    assert (Hsame : dget d' w = k) by (apply dget_dset_same; exact Hiw).
+    assert (Hoth : forall y, fin d y -> dget d' y = dget d y).
+    { intros y Hy. apply dget_dset_other. intros <-. unfold fin in Hy. lia. }
+    assert (Huw : Some u <> w) by (intros <-; unfold fin in Hfu; lia).
+    split; [|split; [exact Hoth|split; [apply incl_appl, incl_refl|split]]].
+    - constructor.
+      + unfold d'. rewrite dset_length. apply (j_len d q HJ).
+      + intros x. unfold d'. destruct (dget_dset_cases d w x k) as [[_ ->]| ->]; [unfold k; lia|apply (j_db d q HJ)].
+      + intros x Hx. apply in_app_or in Hx. destruct Hx as [Hx|[<-|[]]].
+        * destruct (j_q d q HJ x Hx) as [V F]. split; auto. unfold fin. rewrite Hoth; auto.
+        * split; auto. unfold fin. rewrite Hsame. unfold k. lia.
+      + intros x Vx Fx. destruct (dget_dset_cases d w x k) as [[<- E]|E].
+        * destruct (j_chain d q HJ (Some u) Hu Hfu) as (l & Hn & Hl & Hy).
+          exists (l ++ [u]). split; [|split].
+          -- apply NoDup_snoc; auto. intros Hin. apply Hy in Hin. lia.
+          -- rewrite app_length. simpl. fold d'. rewrite Hsame. unfold k. lia.
+          -- intros y Hin. fold d'. rewrite Hsame. apply in_app_or in Hin. destruct Hin as [Hin|[<-|[]]].
+             ++ destruct (Hy y Hin) as [Hy1 Hy2]. split; auto. rewrite Hoth; [unfold k; lia|unfold fin in *; lia].
+             ++ split; auto. rewrite Hoth; auto. unfold k. lia.
+        * fold d' in E. assert (Fx' : fin d x) by (unfold fin in *; lia).
+          destruct (j_chain d q HJ x Vx Fx') as (l & Hn & Hl & Hy).
+          exists l. split; auto. split; [congruence|]. intros y Hin. destruct (Hy y Hin) as [Hy1 Hy2].
+          split; auto. rewrite E. rewrite Hoth; auto. unfold fin in *. lia.
+      + intros x Vx Fx. destruct (dget_dset_cases d w x k) as [[<- E]|E].
+        * destruct (j_back d q HJ (Some u) Hu Hfu) as (u0 & H1 & H2 & H3 & H4).
+          exists u0. split; auto. split; auto. split.
+          -- rewrite Hoth; auto. unfold fin. lia.
+          -- unfold w. apply (lpath_snoc g mvl _ _ u v); auto.
+             ++ apply (lpath_ext g mvl d); auto. intros z Hz. apply Hoth. unfold fin in *. lia.
+             ++ fold w. rewrite Hsame. rewrite Hoth; auto.
+        * fold d' in E. assert (Fx' : fin d x) by (unfold fin in *; lia).
+          destruct (j_back d q HJ x Vx Fx') as (u0 & H1 & H2 & H3 & H4).
+          exists u0. split; auto. split; auto. split.
+          -- rewrite Hoth; auto. unfold fin. lia.
+          -- apply (lpath_ext g mvl d); auto. intros z Hz. apply Hoth. unfold fin in *. lia.
+      + intros u' Hu' Hf'. rewrite Hoth; [apply (j_free d q HJ); auto|].
+        unfold fin. rewrite (j_free d q HJ); auto. lia.
+    - fold w. unfold fin. rewrite Hsame. unfold k. lia.
+    - split.
+      + intros y Fy. destruct (dget_dset_cases d w y k) as [[<- E]|E].
+        * right. apply in_or_app. right. now left.
+        * left. fold d' in E. unfold fin in *. lia.
+      + unfold bmeasure. rewrite app_length. simpl. unfold d', dset.
+        rewrite <- (count_occ_upd_dec d (didx w) k (num_u g + 1)); auto; [lia|unfold k; lia].
+  Qed.
+
+  Lemma relax_fold : forall u vs d q, Jw d q -> u < num_u g -> fin d (Some u) -> incl vs (adjU g u) ->
+    let dq' := fold_left (bfs_relax (num_u g + 1) mvl (Some u)) vs (d, q) in
+    Jw (fst dq') (snd dq') /\ ext d (fst dq') /\ incl q (snd dq') /\
+    (forall v, In v vs -> fin (fst dq') (mget mvl v)) /\
+    (forall y, fin (fst dq') y -> fin d y \/ In y (snd dq')) /\
+    bmeasure (fst dq') (snd dq') = bmeasure d q.
+  Proof.
+    intros u vs. induction vs as [|v vs IH]; intros d q HJ Hu Hfu Hin; cbn [fold_left].
+    - cbn [fst snd]. split; [exact HJ|]. split; [intros y Hy; reflexivity|]. split; [apply incl_refl|].
+      split; [intros v []|]. split; [auto|reflexivity].
+    - assert (Hv : In v (adjU g u)) by (apply Hin; now left).
+      assert (Hin' : incl vs (adjU g u)) by (intros x Hx; apply Hin; now right).
+      pose proof (relax_step u d q v HJ Hu Hfu Hv) as R. cbv zeta in R.
+      destruct (bfs_relax (num_u g + 1) mvl (Some u) (d, q) v) as [d1 q1]. cbn [fst snd] in R.
+      destruct R as (J1 & E1 & I1 & F1 & N1 & M1).
+      assert (Hfu1 : fin d1 (Some u)) by (unfold fin; rewrite E1; auto).
+      specialize (IH d1 q1 J1 Hu Hfu1 Hin'). cbv zeta in IH.
+      destruct (fold_left (bfs_relax (num_u g + 1) mvl (Some u)) vs (d1, q1)) as [d2 q2]. cbn [fst snd] in *.
+      destruct IH as (J2 & E2 & I2 & F2 & N2 & M2).
+      split; [exact J2|]. split.
+      { intros y Hy. rewrite E2; [apply E1; auto|]. unfold fin. rewrite E1; auto. }
+      split; [eapply incl_tran; eauto|]. split.
+      { intros v' [<-|Hv']; auto. unfold fin. rewrite E2; auto. }
+      split; [|congruence].
+      intros y Fy. destruct (N2 y Fy) as [Fy1|]; auto. destruct (N1 y Fy1); auto.
+  Qed.
+
+  Record Jfull (d : list nat) (q : list (option nat)) : Prop := {
+    jf_w : Jw d q;
+    jf_done : forall u, u < num_u g -> fin d (Some u) ->
+       In (Some u) q \/ dget d None <= dget d (Some u) \/ (forall v, In v (adjU g u) -> fin d (mget mvl v))
+  }.
+
+  Lemma Jw_tail : forall d x q, Jw d (x :: q) -> Jw d q.
+  Proof.
+    intros d x q HJ. constructor; try apply HJ. intros y Hy. apply (j_q _ _ HJ). now right.
+  Qed.
+
+  Lemma bfs_loop_main : forall f d q, Jfull d q -> bmeasure d q <= f ->
+    exists d', bfs_loop f g mvl d q = Some d' /\ Jfull d' [].
+  Proof.
+    induction f as [|f IH]; intros d q HJ Hm.
+    - destruct q as [|x q]; simpl; [eauto|]. unfold bmeasure in Hm. simpl in Hm. lia.
+    - destruct q as [|x q]; [simpl; eauto|]. cbn [bfs_loop].
+      destruct HJ as [HJ HD].
+      assert (Hm' : bmeasure d q <= f) by (unfold bmeasure in *; simpl in Hm; lia).
+      assert (Hskip : (forall u, x = Some u -> dget d None <= dget d (Some u)) ->
+                exists d', bfs_loop f g mvl d q = Some d' /\ Jfull d' []).
+      { intros Hx. apply IH; auto. constructor; [eapply Jw_tail; eauto|].
+        intros u Hu Fu. destruct (HD u Hu Fu) as [[E|Hin]|H]; auto. }
+      destruct (Nat.ltb_spec (dget d x) (dget d None)) as [Hlt|Hge].
+      + destruct x as [u|]; [|lia].
+        destruct (j_q _ _ HJ (Some u) (or_introl eq_refl)) as [Vu Fu]. simpl in Vu.
+        pose proof (relax_fold u (adjU g u) d q (Jw_tail _ _ _ HJ) Vu Fu (incl_refl _)) as R. cbv zeta in R.
+        destruct (fold_left (bfs_relax (num_u g + 1) mvl (Some u)) (adjU g u) (d, q)) as [d1 q1].
+        cbn [fst snd] in *. destruct R as (J1 & E1 & I1 & F1 & N1 & M1).
+        apply IH; [|lia]. constructor; [exact J1|].
+        intros y Hy Fy. destruct (N1 _ Fy) as [Fy0|]; auto.
+        destruct (HD y Hy Fy0) as [[E|Hin]|[Hle|Hall]].
+        * inversion E; subst. right. right. exact F1.
+        * left. auto.
+        * right. left. rewrite (E1 _ Fy0).
+          destruct (Nat.lt_ge_cases (dget d None) (num_u g + 1)) as [Fn|Fn].
+          -- rewrite (E1 None Fn). exact Hle.
+          -- unfold fin in Fy0. lia.
+        * right. right. intros v Hv. unfold fin. rewrite E1; apply Hall; auto.
+      + apply Hskip. intros u ->. exact Hge.
+  Qed.
+
+  (* ---- initialisation --------------------------------------------------------------- *)
+  Lemma dget_init_nil : dget (fst (bfs_init (num_u g) mul)) None = num_u g + 1.
+  Proof. reflexivity. Qed.
+
+  Lemma dget_init_some : forall u, u < num_u g ->
+    dget (fst (bfs_init (num_u g) mul)) (Some u) = if is_free mul u then 0 else num_u g + 1.
+  Proof.
+    intros u Hu. unfold bfs_init, dget. cbn [fst didx nth].
+    set (F := fun u => if is_free mul u then 0 else num_u g + 1).
+    rewrite (nth_indep _ 0 (F 0)) by (rewrite map_length, seq_length; exact Hu).
+    rewrite (map_nth F). rewrite seq_nth by exact Hu. reflexivity.
+  Qed.
+
+  Lemma dget_init_oob : forall u, num_u g <= u -> dget (fst (bfs_init (num_u g) mul)) (Some u) = 0.
+  Proof.
+    intros u Hu. unfold bfs_init, dget. cbn [fst didx nth]. apply nth_overflow.
+    rewrite map_length, seq_length. exact Hu.
+  Qed.
+
+  Lemma bfs_init_J : let dq := bfs_init (num_u g) mul in
+    Jfull (fst dq) (snd dq) /\ bmeasure (fst dq) (snd dq) <= bfs_fuel g.
+  Proof.
+    cbv zeta. split.
+    - assert (HQ : forall x, In x (snd (bfs_init (num_u g) mul)) ->
+                exists u, x = Some u /\ u < num_u g /\ is_free mul u = true).
+      { intros x Hx. unfold bfs_init in Hx. cbn [snd] in Hx. apply in_map_iff in Hx.
+        destruct Hx as [u [<- Hu]]. apply filter_In in Hu. destruct Hu as [Hu Hf]. apply in_seq in Hu.
+        exists u. repeat split; auto. lia. }
+      assert (HF : forall x, valid x -> fin (fst (bfs_init (num_u g) mul)) x ->
+                exists u, x = Some u /\ u < num_u g /\ is_free mul u = true /\
+                          dget (fst (bfs_init (num_u g) mul)) x = 0).
+      { intros [u|] Vx Fx; unfold fin in Fx.
+        - simpl in Vx. rewrite dget_init_some in * by assumption. exists u.
+          destruct (is_free mul u); [auto|lia].
+        - rewrite dget_init_nil in Fx. lia. }
+      constructor; [constructor|].
+      + unfold bfs_init. cbn [fst]. simpl. rewrite map_length, seq_length. lia.
+      + intros [u|]; [|rewrite dget_init_nil; lia].
+        destruct (Nat.lt_ge_cases u (num_u g)).
+        * rewrite dget_init_some by assumption. destruct (is_free mul u); lia.
+        * rewrite dget_init_oob by assumption. lia.
+      + intros x Hx. destruct (HQ x Hx) as (u & -> & Hu & Hf). split; [exact Hu|].
+        unfold fin. rewrite dget_init_some by assumption. rewrite Hf. lia.
+      + intros x Vx Fx. destruct (HF x Vx Fx) as (u & -> & Hu & Hf & E). exists []. rewrite E.
+        split; [constructor|]. split; [reflexivity|]. intros y [].
+      + intros x Vx Fx. destruct (HF x Vx Fx) as (u & -> & Hu & Hf & E). exists u.
+        split; auto. split; auto. split; auto. apply lpath_refl.
+      + intros u Hu Hf. rewrite dget_init_some by assumption. now rewrite Hf.
+      + intros u Hu Fu. left. destruct (HF (Some u) Hu Fu) as (u' & E & _ & Hf & _). inversion E; subst u'.
+        unfold bfs_init. cbn [snd]. apply in_map. apply filter_In. split; auto. apply in_seq. lia.
+    - unfold bmeasure, bfs_fuel, bfs_init. cbn [fst snd]. rewrite map_length.
+      pose proof (filter_split_length _ (is_free mul) (seq 0 (num_u g))) as H1. rewrite seq_length in H1.
+      pose proof (count_occ_bound Nat.eq_dec (num_u g + 1)
+                    ((num_u g + 1) :: map (fun u => if is_free mul u then 0 else num_u g + 1) (seq 0 (num_u g)))) as H2.
+      simpl length in H2. rewrite map_length, seq_length in H2. lia.
+  Qed.
+
+  Theorem bfs_loop_init : exists d',
+    bfs_loop (bfs_fuel g) g mvl (fst (bfs_init (num_u g) mul)) (snd (bfs_init (num_u g) mul)) = Some d' /\
+    Jfull d' [].
+  Proof. destruct bfs_init_J as [HJ Hm]. now apply bfs_loop_main. Qed.
+End BFS.
+
+(* ================================================================================== *)
+(* 6. a failed DFS proves that no layered path to NIL exists                           *)
+(* ================================================================================== *)
+Section LP.
+  Variable g : graph.
+
+  Definition lp (st : hk) (x : option nat) : Prop := lpath g (mv st) (dist st) x None.
+
+  Lemma lp_bound : forall st x, lp st x -> dget (dist st) x <= dget (dist st) None.
+  Proof. intros st x H. now apply lpath_le in H. Qed.
+
+  (* st' = st with some vertices that have no layered path marked as visited (dist = inf) *)
+  Definition RR (st st' : hk) : Prop :=
+    mv st' = mv st /\ dget (dist st') None = dget (dist st) None /\
+    forall y, dget (dist st') (Some y) = dget (dist st) (Some y) \/
+              (dget (dist st') (Some y) = num_u g + 1 /\ ~ lp st (Some y)).
+
+  Lemma RR_refl : forall st, RR st st.
+  Proof. intros st. split; auto. Qed.
+
+  Lemma RR_same : forall st st' x, RR st st' -> lp st x -> dget (dist st') x = dget (dist st) x.
+  Proof.
+    intros st st' [y|] (E1 & E2 & E3) H; auto. destruct (E3 y) as [|[_ Hn]]; auto. contradiction.
+  Qed.
+
+  Lemma RR_lp_fwd : forall st st' x, RR st st' -> lp st x -> lp st' x.
+  Proof.
+    intros st st' x HR H. unfold lp in *. remember None as t eqn:Et. induction H.
+    - apply lpath_refl.
+    - subst y. specialize (IHlpath eq_refl).
+      assert (Hu : lp st (Some u)) by (eapply lpath_step; eauto).
+      pose proof (RR_same st st' _ HR H1) as S1. pose proof (RR_same st st' _ HR Hu) as S2.
+      destruct HR as (E1 & _). rewrite E1 in *.
+      apply (lpath_step g (mv st) (dist st') u v None); auto. congruence.
+  Qed.
+
+  Lemma RR_lp_bwd : forall st st' x, RR st st' -> dget (dist st) None < num_u g + 1 ->
+    lp st' x -> lp st x /\ dget (dist st') x = dget (dist st) x.
+  Proof.
+    intros st st' x HR Hn H. unfold lp in *. remember None as t eqn:Et. induction H.
+    - subst x. split; [apply lpath_refl|apply HR].
+    - subst y. destruct (IHlpath eq_refl Hn) as [I1 I2].
+      assert (Hu : lp st' (Some u)) by (eapply lpath_step; eauto).
+      apply lp_bound in Hu. destruct HR as (E1 & E2 & E3). rewrite E1 in *.
+      assert (S2 : dget (dist st') (Some u) = dget (dist st) (Some u)).
+      { destruct (E3 u) as [|[E _]]; auto. lia. }
+      split; [|exact S2]. apply (lpath_step g (mv st) (dist st) u v None); auto. congruence.
+  Qed.
+
+  Lemma RR_lp : forall st st' x, RR st st' -> dget (dist st) None < num_u g + 1 -> (lp st x <-> lp st' x).
+  Proof.
+    intros st st' x HR Hn. split; [now apply RR_lp_fwd|]. intros H. now apply (RR_lp_bwd st st' x HR Hn).
+  Qed.
+
+  Lemma RR_trans : forall st1 st2 st3, dget (dist st1) None < num_u g + 1 ->
+    RR st1 st2 -> RR st2 st3 -> RR st1 st3.
+  Proof.
+    intros st1 st2 st3 Hn HR1 HR2. pose proof HR1 as (A1 & A2 & A3). pose proof HR2 as (B1 & B2 & B3).
+    split; [congruence|]. split; [congruence|]. intros y.
+    destruct (B3 y) as [E|[E Hl]].
+    - rewrite E. apply A3.
+    - right. split; auto. intros Hl1. apply Hl. now apply (RR_lp st1 st2).
+  Qed.
+
+  Definition viable (st : hk) (u v : nat) : Prop :=
+    dget (dist st) (mget (mv st) v) = dget (dist st) (Some u) + 1 /\ lp st (mget (mv st) v).
+
+  Lemma dfs_loop_false : forall (rec : option nat -> hk -> option (bool * hk)),
+    (forall w st st', dget (dist st) None < num_u g + 1 -> rec w st = Some (false, st') ->
+       RR st st' /\ ~ lp st w) ->
+    forall u vs st st', dget (dist st) None < num_u g + 1 ->
+      (lp st (Some u) -> exists v, In v vs /\ viable st u v) ->
+      dfs_loop rec (num_u g + 1) u vs st = Some (false, st') -> RR st st' /\ ~ lp st (Some u).
+  Proof.
+    intros rec HR u vs. induction vs as [|v vs IH]; intros st st' Hn Hv H; simpl in H.
+    - inversion H; subst. clear H.
+      assert (Hl : ~ lp st (Some u)) by (intros Hl; destruct (Hv Hl) as [v [[] _]]).
+      split; [|exact Hl]. split; [reflexivity|]. cbn [dist mv]. split.
+      + apply dget_dset_other. discriminate.
+      + intros y. destruct (dget_dset_cases (dist st) (Some u) (Some y) (num_u g + 1)) as [[E1 E2]|E]; auto.
+        inversion E1; subst. auto.
+    - destruct (Nat.eqb_spec (dget (dist st) (mget (mv st) v)) (dget (dist st) (Some u) + 1)) as [Hd|Hd].
+      + destruct (rec (mget (mv st) v) st) as [[[|] st1]|] eqn:E1; try discriminate.
+        destruct (HR _ _ _ Hn E1) as [R1 Hl1].
+        assert (Hn1 : dget (dist st1) None < num_u g + 1) by (destruct R1 as (_ & -> & _); exact Hn).
+        destruct (IH st1 st' Hn1) as [R2 Hl2]; auto.
+        * intros Hu1. apply (RR_lp st st1 _ R1 Hn) in Hu1. destruct (Hv Hu1) as [v' [[<-|Hin] [V1 V2]]].
+          -- contradiction.
+          -- exists v'. split; auto. pose proof R1 as (E & _). unfold viable. rewrite E.
+             rewrite (RR_same st st1 _ R1 V2). rewrite (RR_same st st1 _ R1 Hu1).
+             split; [exact V1|]. now apply (RR_lp_fwd st st1 _ R1).
+        * split; [eapply RR_trans; eauto|]. intros Hu. apply Hl2. now apply (RR_lp st st1 _ R1 Hn).
+      + apply IH; auto. intros Hu. destruct (Hv Hu) as [v' [[<-|Hin] [V1 V2]]]; [contradiction|].
+        exists v'. split; [assumption|split; assumption].
+  Qed.
+
+  Theorem dfs_false : forall f x st st', dget (dist st) None < num_u g + 1 ->
+    dfs f g x st = Some (false, st') -> RR st st' /\ ~ lp st x.
+  Proof.
+    induction f as [|f IH]; intros x st st' Hn H; simpl in H; [discriminate|].
+    destruct x as [u|]; [|discriminate].
+    eapply dfs_loop_false; eauto.
+    intros Hl. unfold lp in Hl. inversion Hl; subst. exists v. split; auto. split; auto.
+  Qed.
+End LP.
+
+(* ================================================================================== *)
+(* 7. phases, the outer loop, the returned matching                                    *)
+(* ================================================================================== *)
+Definition is_some (o : option nat) : bool := match o with Some _ => true | None => false end.
+Definition cnt (m : list (option nat)) : nat := length (filter is_some m).
+
+Lemma cnt_le : forall m, cnt m <= length m.
+Proof.
+  intros m. unfold cnt. pose proof (filter_split_length _ is_some m). lia.
+Qed.
+
+Lemma cnt_mono : forall m m', length m = length m' ->
+  (forall y, mget m y <> None -> mget m' y <> None) ->
+  cnt m <= cnt m' /\ (forall u, mget m u = None -> mget m' u <> None -> cnt m < cnt m').
+Proof.
+  induction m as [|a m IH]; intros [|a' m'] Hl Hy; simpl in Hl; try discriminate.
+  - split; auto. intros [|u] H1 H2; simpl in H2; congruence.
+  - destruct (IH m') as [I1 I2]; [lia|intros y; apply (Hy (S y))|].
+    pose proof (Hy 0) as H0. unfold mget in H0. simpl in H0. unfold cnt in *. simpl.
+    split.
+    + destruct a, a'; simpl; try lia. exfalso. apply H0; congruence.
+    + intros [|u] H1 H2; unfold mget in H1, H2; simpl in H1, H2.
+      * subst a. destruct a'; [simpl; lia|congruence].
+      * specialize (I2 u H1 H2). destruct a, a'; simpl; try lia. exfalso. apply H0; congruence.
+Qed.
+
+Section Loop.
+  Variable g : graph.
+  Hypothesis W : wf g.
+
+  (* invariant between phases: matched_pairs_u and matched_pairs_v describe the same matching of g *)
+  Definition TI (st : hk) : Prop :=
+    length (mu st) = num_u g /\ length (mv st) = num_v g /\ invA g st /\ invB st.
+
+  Lemma is_free_None : forall m u, is_free m u = true <-> mget m u = None.
+  Proof. intros m u. unfold is_free. destruct (mget m u); split; congruence. Qed.
+
+  Lemma phase_fold : forall us st, (forall u, In u us -> u < num_u g) -> TI st -> SW g st -> DB g st ->
+    exists st', fold_left (phase_step g) us (Some st) = Some st' /\ TI st' /\ SW g st' /\ DB g st' /\
+      cnt (mu st) <= cnt (mu st') /\
+      (forall u0, In u0 us -> is_free (mu st) u0 = true -> dget (dist st) None < num_u g + 1 ->
+                  lp g st (Some u0) -> cnt (mu st) < cnt (mu st')).
+  Proof.
+    induction us as [|u us IH]; intros st Hus HT HS HD; cbn [fold_left].
+    - exists st. split; [reflexivity|]. split; [exact HT|]. split; [exact HS|]. split; [exact HD|].
+      split; [lia|]. intros u0 [].
+    - assert (Hus' : forall u', In u' us -> u' < num_u g) by (intros; apply Hus; now right).
+      unfold phase_step at 2. destruct (is_free (mu st) u) eqn:Ef.
+      + destruct HT as (L1 & L2 & HA & HB).
+        destruct (dfs_main g W (dfs_fuel g) (Some u) st) as (r & st1 & E1 & P1).
+        { split; [exact HS|]. split; [exact HA|]. split; [exact HB|]. split; [exact HD|].
+          split; [apply Hus; now left|]. unfold dfs_fuel. lia. }
+        rewrite E1. destruct P1 as (S1 & D1 & F1 & M1 & R0 & R1).
+        assert (Lm : length (mu st) = length (mu st1)) by (destruct S1 as (-> & _); exact L1).
+        destruct (cnt_mono (mu st) (mu st1) Lm M1) as [C1 C2].
+        apply is_free_None in Ef.
+        assert (T1 : TI st1).
+        { destruct S1 as (K1 & K2 & _). split; [exact K1|]. split; [exact K2|]. destruct r.
+          - destruct (R1 eq_refl) as [Hk _]. rewrite Ef in Hk. now apply K_None_inv.
+          - destruct (R0 eq_refl) as [Emu Emv]. unfold invA, invB. rewrite Emu, Emv. split; assumption. }
+        destruct (IH st1 Hus' T1 S1 D1) as (st' & E' & T' & S' & D' & C' & P').
+        exists st'. split; [exact E'|]. split; [exact T'|]. split; [exact S'|]. split; [exact D'|].
+        split; [lia|]. intros u0 Hin Hf0 Hn Hl. destruct r.
+        * destruct (R1 eq_refl) as [_ Hm]. specialize (C2 u Ef Hm). lia.
+        * destruct (R0 eq_refl) as [Emu Emv].
+          destruct (dfs_false g _ _ _ _ Hn E1) as [RR1 Hnl].
+          destruct Hin as [<-|Hin]; [contradiction|].
+          assert (cnt (mu st1) < cnt (mu st')); [|lia].
+          apply (P' u0 Hin).
+          -- now rewrite Emu.
+          -- destruct RR1 as (_ & -> & _). exact Hn.
+          -- now apply (RR_lp_fwd g st st1).
+      + destruct (IH st Hus' HT HS HD) as (st' & E' & T' & S' & D' & C' & P').
+        exists st'. split; [exact E'|]. split; [exact T'|]. split; [exact S'|]. split; [exact D'|].
+        split; [exact C'|]. intros u1 [<-|Hin] Hf0; [congruence|]. now apply P'.
+  Qed.
+
+  Lemma phase_main : forall st, TI st -> SW g st -> DB g st ->
+    exists st', phase g st = Some st' /\ TI st' /\ cnt (mu st) <= cnt (mu st') /\
+      (forall u0, u0 < num_u g -> is_free (mu st) u0 = true -> dget (dist st) None < num_u g + 1 ->
+                  lp g st (Some u0) -> cnt (mu st) < cnt (mu st')).
+  Proof.
+    intros st HT HS HD. destruct (phase_fold (seq 0 (num_u g)) st) as (st' & E & T' & _ & _ & C & P); auto.
+    - intros u Hu. apply in_seq in Hu. lia.
+    - exists st'. split; [exact E|]. split; [exact T'|]. split; [exact C|].
+      intros u0 Hu0. apply P. apply in_seq. lia.
+  Qed.
+
+  (* what BFS returning False establishes *)
+  Definition bfs_done (st : hk) : Prop :=
+    dget (dist st) None = num_u g + 1 /\ Jfull g (mu st) (mv st) (dist st) [].
+
+  Lemma bfs_main : forall st, TI st ->
+    exists b st1, bfs g st = Some (b, st1) /\ mu st1 = mu st /\ mv st1 = mv st /\ SW g st1 /\ DB g st1 /\
+      (b = true -> dget (dist st1) None < num_u g + 1 /\
+                   exists u0, u0 < num_u g /\ is_free (mu st) u0 = true /\ lp g st1 (Some u0)) /\
+      (b = false -> bfs_done st1).
+  Proof.
+    intros st (L1 & L2 & HA & HB).
+    assert (MVR : forall v x, mget (mv st) v = Some x -> x < num_u g).
+    { intros v x H. apply HB in H. apply mget_Some_lt in H. lia. }
+    destruct (bfs_loop_init g W (mu st) (mv st) MVR) as (d & E & [HJ HDn]).
+    unfold bfs. rewrite E. eexists. eexists. split; [reflexivity|]. cbn [mu mv dist].
+    split; [reflexivity|]. split; [reflexivity|]. split.
+    { split; [exact L1|]. split; [exact L2|]. apply (j_len _ _ _ _ _ HJ). }
+    split; [exact (j_db _ _ _ _ _ HJ)|]. split.
+    - intros Hb. apply negb_true_iff in Hb. apply Nat.eqb_neq in Hb.
+      pose proof (j_db _ _ _ _ _ HJ None) as Hle.
+      assert (Fn : fin g d None) by (unfold fin; lia). split; [exact Fn|].
+      destruct (j_back _ _ _ _ _ HJ None I Fn) as (u0 & H1 & H2 & _ & H4). exists u0. auto.
+    - intros Hb. apply negb_false_iff in Hb. apply Nat.eqb_eq in Hb. split; [exact Hb|].
+      cbn [mu mv dist]. constructor; assumption.
+  Qed.
+
+  Lemma hk_loop_main : forall f st, TI st -> num_u g - cnt (mu st) + 1 <= f ->
+    exists st', hk_loop f g st = Some st' /\ TI st' /\ bfs_done st'.
+  Proof.
+    induction f as [|f IH]; intros st HT Hf; [lia|]. cbn [hk_loop].
+    destruct (bfs_main st HT) as (b & st1 & E & Emu & Emv & S1 & D1 & Ht & Hf').
+    rewrite E.
+    assert (T1 : TI st1).
+    { destruct HT as (L1 & L2 & HA & HB). split; [congruence|]. split; [congruence|].
+      unfold invA, invB. rewrite Emu, Emv. split; assumption. }
+    destruct b.
+    - destruct (Ht eq_refl) as (Hn & u0 & Hu0 & Hfree & Hl).
+      destruct (phase_main st1 T1 S1 D1) as (st2 & E2 & T2 & C2 & P2). rewrite E2.
+      assert (Hlt : cnt (mu st1) < cnt (mu st2)).
+      { apply (P2 u0); auto. now rewrite Emu. }
+      pose proof (cnt_le (mu st2)) as Hc. destruct T2 as (L1' & L2' & HA' & HB'). rewrite L1' in Hc.
+      apply IH; [repeat split; auto|]. rewrite Emu in Hlt. lia.
+    - exists st1. split; [reflexivity|]. split; [exact T1|]. now apply Hf'.
+  Qed.
+
+  Lemma mget_repeat_None : forall n i, mget (repeat None n) i = None.
+  Proof. intros n. unfold mget. induction n; intros [|i]; simpl; auto. Qed.
+
+  Theorem hk_run_spec : exists st, hk_run g = Some st /\ TI st /\ bfs_done st.
+  Proof.
+    unfold hk_run. apply hk_loop_main.
+    - unfold hk_init, TI, invA, invB. cbn [mu mv]. rewrite !repeat_length.
+      split; [reflexivity|]. split; [reflexivity|]. split; intros u v H; rewrite mget_repeat_None in H; discriminate.
+    - unfold hk_fuel. lia.
+  Qed.
+
+  (* ---- the collected matching ------------------------------------------------------ *)
+  Lemma collect_In : forall nu m u v, In (u, v) (collect nu m) <-> u < nu /\ mget m u = Some v.
+  Proof.
+    intros nu m u v. unfold collect. rewrite in_flat_map. split.
+    - intros [u' [Hu' Hin]]. apply in_seq in Hu'. destruct (mget m u') eqn:E; [|destruct Hin].
+      destruct Hin as [Hin|[]]. inversion Hin; subst. split; [lia|assumption].
+    - intros [Hu Hm]. exists u. split; [apply in_seq; lia|]. rewrite Hm. now left.
+  Qed.
+
+  Lemma collect_fst : forall m l, NoDup l ->
+    NoDup (map fst (flat_map (fun u => match mget m u with Some v => [(u, v)] | None => [] end) l)) /\
+    (forall u, In u (map fst (flat_map (fun u => match mget m u with Some v => [(u, v)] | None => [] end) l)) -> In u l).
+  Proof.
+    intros m l. induction l as [|a l IH]; intros Hn; simpl.
+    - split; [constructor|auto].
+    - inversion Hn; subst. destruct (IH H2) as [I1 I2]. destruct (mget m a); simpl.
+      + split; [constructor; auto|]. intros u [<-|H]; auto.
+      + split; auto.
+  Qed.
+
+  Lemma collect_snd : forall st l, invA g st -> NoDup l ->
+    NoDup (map snd (flat_map (fun u => match mget (mu st) u with Some v => [(u, v)] | None => [] end) l)).
+  Proof.
+    intros st l HA. induction l as [|a l IH]; intros Hn; simpl; [constructor|].
+    inversion Hn; subst. specialize (IH H2). destruct (mget (mu st) a) as [v|] eqn:E; simpl; auto.
+    constructor; auto. intros Hin. apply in_map_iff in Hin. destruct Hin as [[u' v'] [Ev Hin]].
+    simpl in Ev. subst v'. apply in_flat_map in Hin. destruct Hin as [u'' [Hu'' Hin]].
+    destruct (mget (mu st) u'') as [v''|] eqn:E''; [|destruct Hin]. destruct Hin as [Hin|[]].
+    inversion Hin; subst. destruct (HA _ _ E) as [E1 _]. destruct (HA _ _ E'') as [E2 _].
+    assert (a = u') by congruence. subst. contradiction.
+  Qed.
+
+  Theorem hopcroft_karp_spec : exists st M, hk_run g = Some st /\ hopcroft_karp g = Some M /\
+    M = collect (num_u g) (mu st) /\ TI st /\ bfs_done st /\
+    is_matching M /\ (forall u v, In (u, v) M -> In v (adjU g u)).
+  Proof.
+    destruct hk_run_spec as (st & E & HT & HD). exists st, (collect (num_u g) (mu st)).
+    unfold hopcroft_karp. rewrite E. cbn [option_map].
+    split; [reflexivity|]. split; [reflexivity|]. split; [reflexivity|]. split; [exact HT|]. split; [exact HD|].
+    destruct HT as (L1 & L2 & HA & HB). split; [split|].
+    - apply collect_fst. apply seq_NoDup.
+    - apply collect_snd; auto. apply seq_NoDup.
+    - intros u v H. apply collect_In in H. destruct H as [_ H]. now apply HA in H.
+  Qed.
+End Loop.
